@@ -16,7 +16,7 @@ ENGINES = [
     {"name": "edge-codec", "path": "specs/codec/EdgeCodec.tla", "serves_properties": ["C25"],
      "kind_free_text": "TLA+ specification of the stored-origin codec over boundary classes; TLC-generated cases replayed through hook H3"},
     {"name": "par-trace", "path": "specs/core/ParTrace.tla, specs/sync/SyncTrace.tla, specs/sync/SyncOps.tla",
-     "serves_properties": ["C16", "C17", "C18", "C19", "C20", "C21"],
+     "serves_properties": ["C16", "C17", "C18", "C19", "C20", "C21", "C22", "C24"],
      "kind_free_text": "TLA+ monitors over traces of real threads on database clones; protocol events from hook H1 are "
                        "replayed through the SyncOps actions (guards + invariants)"},
     {"name": "core-trace", "path": "specs/core/CoreTrace.tla",
@@ -78,6 +78,8 @@ META = {
                      "is replayed on the real private codec (hook H3) on the default and the persistence build.",
                 design_ref="§4.6, §7 C25", note="The model works over boundary classes of the 12+20-bit packing, not over all 32-bit words.",
                 technique="TLA+ specification (EdgeCodec.tla) enumerated by TLC, cases replayed into the implementation"),
+    "C24": par("PageAlloc.tla model-checked for all schedules (distinct ids, one writer per page); real threads creating inputs, "
+               "interned values and tracked structs concurrently, every identity checked by the ParTrace monitor.", "§4.6, §7 C24"),
     "C23": dict(seq("Value-lifetime discipline only (no raw-memory claims): no drop while a reference of the same revision "
                     "is held, retained references keep their value, no double drop, nothing leaked at database drop.",
                     "§7 C23, §8"), level="exploration"),
